@@ -166,7 +166,7 @@ def shard(ctx, budget_s):
             compare(ctx, name, u, "udp", res)
             ctx.stats["udp_payloads"] += 1
             # --- TCP
-            ctx.driver().reset()
+            ctx.reset_table()
             isns = [rng.getrandbits(32) for _ in pls]
             rs = ctx.send_many([e.tcp(sp, dp, isn, 0, SYN) for e, (v6, sp, dp), isn in zip(ends, pls, isns)])
             frames, keep = [], []
